@@ -27,6 +27,12 @@ fn retention(plain: bool) -> BundleRetention {
 }
 
 pub fn case_record(tier: Tier, seed: u64, idx: u64) -> CaseRecord {
+    case_record_with(tier, seed, idx, None).0
+}
+
+/// `fixed`: the scenario of a replay file (the generator is then not consulted, so a replay file stays
+/// valid when the workload generator changes). Returns the record and the scenario used.
+pub fn case_record_with(tier: Tier, seed: u64, idx: u64, fixed: Option<&Scenario>) -> (CaseRecord, Scenario) {
     let mut rng = Prng::new(derive(seed, 0x4157_0000 ^ idx.wrapping_mul(0x9E37)));
     crate::run::reset_hash_seeds(derive(seed, idx));
     let profile = [Profile::Lifecycle, Profile::Lifecycle, Profile::Mixed, Profile::Code, Profile::Beneficiary][rng.below(5) as usize];
@@ -37,6 +43,9 @@ pub fn case_record(tier: Tier, seed: u64, idx: u64) -> CaseRecord {
     s.precompiles.clear();
     if rng.chance(1, 2) {
         workload::add_second_block(&mut s, gen_seed);
+    }
+    if let Some(f) = fixed {
+        s = f.clone();
     }
     let db_r = SimDb::from_scenario(&s, false, false);
     let db_p = Arc::new(SimDb::from_scenario(&s, false, false));
@@ -227,7 +236,7 @@ pub fn case_record(tier: Tier, seed: u64, idx: u64) -> CaseRecord {
     stats.txs = commits as usize;
     stats.workload = vec![("probe.history_commits", commits), ("probe.history_operations", ops_log.len() as u64)];
     let sample = (idx < 2).then(|| json!({"component": "history-differential", "profile": s.profile, "operations": ops_log}));
-    CaseRecord { idx, findings, harness_errors: vec![], stats, sample, group: "history-differential" }
+    (CaseRecord { idx, findings, harness_errors: vec![], stats, sample, group: "history-differential" }, s)
 }
 
 fn short(a: &Address) -> String {
